@@ -16,7 +16,7 @@ const poison = 0xDB
 type bufInfo struct {
 	id      int
 	p       *[]byte
-	base    unsafe.Pointer
+	base    uintptr // (an address for diagnostics, not a reference: a freed large array must not be kept alive)
 	capa    int
 	live    bool
 	freedBy string
@@ -84,7 +84,7 @@ func (t *Tracker) newBuf(size, capa int) *[]byte {
 	t.nextID++
 	bi := &bufInfo{id: t.nextID, p: p, capa: capa, live: true, allocBy: caller()}
 	if capa > 0 {
-		bi.base = unsafe.Pointer(&b[:1][0])
+		bi.base = uintptr(unsafe.Pointer(&b[:1][0]))
 	}
 	t.bufs[p] = bi
 	t.Mallocs++
@@ -182,7 +182,7 @@ func (t *Tracker) Append(p *[]byte, more ...byte) *[]byte {
 	old := bi.capa
 	*p = append(*p, more...)
 	bi.capa = cap(*p)
-	bi.base = unsafe.Pointer(&(*p)[:1][0])
+	bi.base = uintptr(unsafe.Pointer(&(*p)[:1][0]))
 	t.Live += bi.capa - old
 	if t.Live > t.PeakLive {
 		t.PeakLive = t.Live
